@@ -39,7 +39,7 @@
 //! Further children: (E) 2 KiB chunks with divisor 4 / multiplier 3, 2-chunk xorbs, 5000-byte ingestion blocks and (F) 1-chunk xorbs -
 //! extras only; (G) 4 KiB chunks, 40-chunk xorbs, fragmentation estimator over 4 ranges, repo salt 0x5a.., global dedup policy Never;
 //! (H) 4 KiB chunks, 100,000-byte xorbs, minimum shard size 2048 (several session shards), default 8 MiB ingestion block;
-//! (I) 256-byte chunks, divisor 2 (no skip-ahead) / multiplier 4, 30,000-byte xorbs, 700-byte ingestion blocks; (P) three PROCESSES
+//! (I) 128-byte chunks, divisor 2 (minimum 64: no skip-ahead) / multiplier 4, 30,000-byte xorbs, 300-byte ingestion blocks; (P) three PROCESSES
 //! over one store: upload + pointer files on disk; a session that cleans files and dies without finalize; a fresh process that
 //! reads the pointer files (`init_from_path`), downloads, uploads related content and downloads everything (minimum shard size 2048,
 //! salt 0x33..); (Q) two processes, cached shards expiring at once (`HF_XET_MDB_SHARD_LOCAL_CACHE_EXPIRATION_SECS=0`).
@@ -99,7 +99,7 @@ const CONFIGS: [Config; 12] = [
     Config { name: "F: 4 KiB chunks, xorb limit 1 chunk, ingestion block 20,000 bytes", env: &[("HF_XET_TARGET_CHUNK_SIZE", "4096"), ("HF_XET_MAX_XORB_CHUNKS", "1"), ("HF_XET_INGESTION_BLOCK_SIZE", "20000")], full: false, salt: 0, never: false, opt_in: None, phases: &[] },
     Config { name: "G: 4 KiB chunks, xorb limit 40 chunks, ingestion block 30,000 bytes, fragmentation estimator over 4 ranges, repo salt 0x5a.., global dedup policy Never", env: &[("HF_XET_TARGET_CHUNK_SIZE", "4096"), ("HF_XET_MAX_XORB_CHUNKS", "40"), ("HF_XET_INGESTION_BLOCK_SIZE", "30000"), ("HF_XET_NRANGES_IN_STREAMING_FRAGMENTATION_ESTIMATOR", "4")], full: true, salt: 0x5a, never: true, opt_in: None, phases: &[] },
     Config { name: "H: 4 KiB chunks, xorb limit 100,000 bytes, minimum shard size 2048 bytes, default ingestion block (8 MiB)", env: &[("HF_XET_TARGET_CHUNK_SIZE", "4096"), ("HF_XET_MAX_XORB_BYTES", "100000"), ("HF_XET_MDB_SHARD_MIN_TARGET_SIZE", "2048")], full: true, salt: 0, never: false, opt_in: None, phases: &[] },
-    Config { name: "I: 256-byte chunks with minimum = target/2 (no skip-ahead) and maximum = 4 x target, xorb limit 30,000 bytes, ingestion block 700 bytes (smaller than the largest chunk)", env: &[("HF_XET_TARGET_CHUNK_SIZE", "256"), ("HF_XET_MINIMUM_CHUNK_DIVISOR", "2"), ("HF_XET_MAXIMUM_CHUNK_MULTIPLIER", "4"), ("HF_XET_MAX_XORB_BYTES", "30000"), ("HF_XET_INGESTION_BLOCK_SIZE", "700")], full: true, salt: 0, never: false, opt_in: None, phases: &[] },
+    Config { name: "I: 128-byte chunks with minimum = target/2 = 64 (the chunker's skip-ahead never runs) and maximum = 4 x target, xorb limit 30,000 bytes, ingestion block 300 bytes (smaller than the largest chunk)", env: &[("HF_XET_TARGET_CHUNK_SIZE", "128"), ("HF_XET_MINIMUM_CHUNK_DIVISOR", "2"), ("HF_XET_MAXIMUM_CHUNK_MULTIPLIER", "4"), ("HF_XET_MAX_XORB_BYTES", "30000"), ("HF_XET_INGESTION_BLOCK_SIZE", "300")], full: true, salt: 0, never: false, opt_in: None, phases: &[] },
     // histories across PROCESSES (the shard cache is read back from disk; pointers travel as pointer files)
     Config { name: "P: three processes over one store (upload; a session that dies without finalize; download + upload), 4 KiB chunks, xorb limit 100,000 bytes, minimum shard size 2048 bytes, repo salt 0x33..", env: &[("HF_XET_TARGET_CHUNK_SIZE", "4096"), ("HF_XET_MAX_XORB_BYTES", "100000"), ("HF_XET_MDB_SHARD_MIN_TARGET_SIZE", "2048"), ("HF_XET_INGESTION_BLOCK_SIZE", "65536")], full: false, salt: 0x33, never: false, opt_in: None, phases: &[1, 2, 3] },
     Config { name: "Q: two processes over one store, cached shards expire at once (local cache expiration 0 s, deletion buffer 0 s), 4 KiB chunks, xorb limit 60 chunks", env: &[("HF_XET_TARGET_CHUNK_SIZE", "4096"), ("HF_XET_MAX_XORB_CHUNKS", "60"), ("HF_XET_MDB_SHARD_LOCAL_CACHE_EXPIRATION_SECS", "0"), ("HF_XET_MDB_SHARD_EXPIRATION_BUFFER_SECS", "0"), ("HF_XET_INGESTION_BLOCK_SIZE", "65536")], full: false, salt: 0, never: true, opt_in: None, phases: &[1, 3] },
@@ -311,7 +311,7 @@ fn build(l: &Limits, seed: u64) -> (Vec<Spec>, Vec<Session>) {
     let f_empty = add("empty", "empty file", vec![]);
     let f_one = add("one-byte", "a single byte", vec![0x42]);
     let sub = pool.fresh(l, 1);
-    let f_sub = add("sub-chunk", "less than the minimum chunk size", sub[0][..(l.target / l.div) / 2].to_vec());
+    let f_sub = add("sub-chunk", "less than the minimum chunk size", sub[0][..((l.target / l.div) / 2).min(sub[0].len())].to_vec());
 
     // multi-xorb fresh data: three full xorbs and a bit
     let x1 = pool.fresh_xorb(l);
@@ -381,7 +381,8 @@ fn build(l: &Limits, seed: u64) -> (Vec<Spec>, Vec<Session>) {
     );
 
     // byte-limit cut after N big chunks, then more than N small chunks in the new xorb, then the chunk that opened it again
-    let mut cand = pool.fresh(l, 160);
+    // (160 candidates in configurations A-H; more where a xorb holds more than 40 average chunks)
+    let mut cand = pool.fresh(l, 160.max(4 * l.xorb_bytes.min(l.xorb_chunks * l.target) / l.target));
     cand.sort_by_key(|c| std::cmp::Reverse(c.len()));
     let mut bigs = vec![];
     let mut bytes = 0;
